@@ -114,3 +114,20 @@ fn("util/topological.py::find_cycles#soundness", props=["C19"],
               3: [FC_SOUND, FC_EDGES, FC_PATH, "len(stack) > 0 and top is stack[-1]"]},
    ensures=["all(" + REL("x", "x") + " for x in result)"],
    returns="set", modifies=[])
+
+
+# ---- sort: the flattening of sort_as_subsets (its contract above, not its body)
+_F["util/topological.py::sort"].proof = False
+fn("util/topological.py::sort#proof", props=["C19"],
+   types={"tuples": "seq", "allitems": "seq", "set_": "tupleval", "S": "setv"},
+   callees={"sort_as_subsets": dict(fn="util/topological.py::sort_as_subsets", bind="subsets")},
+   requires=["no_dups(allitems)", "all(is_tuple(t, 2) for t in tuples)",
+             "not any(True for x in S)"],      # the caller's ghost S is the empty set (trivially pred-closed)
+   invariant={0: ["out == flat(prefix(subsets, _i))"]},
+   ensures=["out == flat(subsets)",
+            # each item exactly once ...
+            "all(x in out for x in allitems)", "all(x in allitems for x in out)", "no_dups(out)",
+            # ... with every dependency before its dependent
+            "all(implies(t[0] in allitems and t[1] in allitems and t[0] is not t[1], index(out, t[0]) < index(out, t[1])) for t in tuples)"],
+   may_raise={"CircularDependencyError": "True"},
+   modifies=[], returns="none")
